@@ -473,33 +473,36 @@ pub struct OpDef {
     pub wout: usize,
     /// digest split into finite-input / non-finite-input samples (raw f32 composites)
     pub split: bool,
+    /// additionally emit a digest over the samples whose outputs are all finite (ops whose
+    /// non-finite results hit a documented debug assertion: the finite part must still agree)
+    pub fdig: bool,
     pub eval: Eval,
     pub what: &'static str,
 }
 
 pub const OPS: &[OpDef] = &[
-    OpDef { name: "f32scalar_new", fam: Family::Unary, wout: 2, split: false, eval: u_new, what: "F32Scalar::new, Scalar::from_f32" },
-    OpDef { name: "f32scalar_neg", fam: Family::Unary, wout: 1, split: false, eval: u_neg, what: "-F32Scalar" },
-    OpDef { name: "f32scalar_sin", fam: Family::Unary, wout: 2, split: false, eval: u_sin, what: "F32Scalar::sin at x and -x (finite x)" },
-    OpDef { name: "f32scalar_cos", fam: Family::Unary, wout: 2, split: false, eval: u_cos, what: "F32Scalar::cos at x and -x (finite x)" },
-    OpDef { name: "f32scalar_sin_cos", fam: Family::Unary, wout: 2, split: false, eval: u_sin_cos, what: "F32Scalar::sin_cos (finite x)" },
-    OpDef { name: "deg_rad", fam: Family::Unary, wout: 2, split: false, eval: u_deg_rad, what: "deg_to_rad, rad_to_deg" },
-    OpDef { name: "vec3_length_normalize", fam: Family::Unary, wout: 6, split: false, eval: u_vec3_len, what: "Vec3::length (software sqrt), length_squared, normalize" },
-    OpDef { name: "fx_from_f32", fam: Family::Unary, wout: 4, split: false, eval: u_fx, what: "echo_wasm_abi::codec::fx_from_f32, fixed_q32_32::from_f32" },
-    OpDef { name: "fixed_to_f32", fam: Family::Unary, wout: 4, split: false, eval: u_fixed_to, what: "fixed_q32_32::to_f32 on four raw values derived from the pattern" },
-    OpDef { name: "mat4_rotation_xyz", fam: Family::Unary, wout: 48, split: false, eval: u_mat4_rot, what: "Mat4::rotation_x/y/z (finite angle)" },
-    OpDef { name: "quat_axis_angle_to_mat4", fam: Family::Unary, wout: 20, split: false, eval: u_quat_axis, what: "Quat::from_axis_angle(fixed axis, x), to_mat4 (finite angle)" },
-    OpDef { name: "dfix64_from_f32_trig", fam: Family::Unary, wout: 7, split: false, eval: u_dfix, what: "DFix64::from_f32, to_f32, sin_cos" },
-    OpDef { name: "f32scalar_arith", fam: Family::BinF32, wout: 6, split: false, eval: b_scalar, what: "F32Scalar + - * / cmp eq over the cross product of the interesting set" },
-    OpDef { name: "dfix64_unary", fam: Family::DfixUnary, wout: 9, split: false, eval: d_unary, what: "DFix64 neg, to_f32, sin, cos, from_f32∘to_f32 over the interesting Q32.32 set" },
-    OpDef { name: "dfix64_arith", fam: Family::DfixBin, wout: 9, split: false, eval: d_bin, what: "DFix64 + - * / cmp over the cross product of the interesting Q32.32 set" },
-    OpDef { name: "vec3_ops", fam: Family::Vec3, wout: 19, split: true, eval: c_vec3, what: "Vec3 add sub dot cross scale length length_squared normalize, operator forms, clamp" },
-    OpDef { name: "mat4_ops", fam: Family::Mat4, wout: 22, split: true, eval: c_mat4, what: "Mat4 multiply, transform_point, transform_direction, operator forms" },
-    OpDef { name: "mat4_rotations", fam: Family::Rot, wout: 48, split: false, eval: c_rot, what: "Mat4::rotation_from_euler, rotation_axis_angle, translation·scale (finite inputs)" },
-    OpDef { name: "quat_multiply", fam: Family::Quat, wout: 4, split: false, eval: c_quat_mul, what: "Quat::multiply (finite components)" },
-    OpDef { name: "quat_normalize_to_mat4", fam: Family::Quat, wout: 36, split: false, eval: c_quat_norm, what: "Quat::normalize, to_mat4, Mat4::from_quat (finite components)" },
-    OpDef { name: "quat_from_axis_angle", fam: Family::Quat, wout: 4, split: false, eval: c_quat_axis, what: "Quat::from_axis_angle (finite axis and angle)" },
-    OpDef { name: "prng_streams", fam: Family::Prng, wout: 161, split: false, eval: c_prng, what: "Prng::from_seed/from_seed_u64, 64 next_f32 + 6x16 next_int per seed" },
+    OpDef { name: "f32scalar_new", fam: Family::Unary, wout: 2, split: false, fdig: false, eval: u_new, what: "F32Scalar::new, Scalar::from_f32" },
+    OpDef { name: "f32scalar_neg", fam: Family::Unary, wout: 1, split: false, fdig: false, eval: u_neg, what: "-F32Scalar" },
+    OpDef { name: "f32scalar_sin", fam: Family::Unary, wout: 2, split: false, fdig: false, eval: u_sin, what: "F32Scalar::sin at x and -x (finite x)" },
+    OpDef { name: "f32scalar_cos", fam: Family::Unary, wout: 2, split: false, fdig: false, eval: u_cos, what: "F32Scalar::cos at x and -x (finite x)" },
+    OpDef { name: "f32scalar_sin_cos", fam: Family::Unary, wout: 2, split: false, fdig: false, eval: u_sin_cos, what: "F32Scalar::sin_cos (finite x)" },
+    OpDef { name: "deg_rad", fam: Family::Unary, wout: 2, split: true, fdig: false, eval: u_deg_rad, what: "deg_to_rad, rad_to_deg" },
+    OpDef { name: "vec3_length_normalize", fam: Family::Unary, wout: 6, split: true, fdig: false, eval: u_vec3_len, what: "Vec3::length (software sqrt), length_squared, normalize" },
+    OpDef { name: "fx_from_f32", fam: Family::Unary, wout: 4, split: false, fdig: false, eval: u_fx, what: "echo_wasm_abi::codec::fx_from_f32, fixed_q32_32::from_f32" },
+    OpDef { name: "fixed_to_f32", fam: Family::Unary, wout: 4, split: false, fdig: false, eval: u_fixed_to, what: "fixed_q32_32::to_f32 on four raw values derived from the pattern" },
+    OpDef { name: "mat4_rotation_xyz", fam: Family::Unary, wout: 48, split: false, fdig: true, eval: u_mat4_rot, what: "Mat4::rotation_x/y/z (finite angle)" },
+    OpDef { name: "quat_axis_angle_to_mat4", fam: Family::Unary, wout: 20, split: false, fdig: true, eval: u_quat_axis, what: "Quat::from_axis_angle(fixed axis, x), to_mat4 (finite angle)" },
+    OpDef { name: "dfix64_from_f32_trig", fam: Family::Unary, wout: 7, split: false, fdig: false, eval: u_dfix, what: "DFix64::from_f32, to_f32, sin_cos" },
+    OpDef { name: "f32scalar_arith", fam: Family::BinF32, wout: 6, split: false, fdig: false, eval: b_scalar, what: "F32Scalar + - * / cmp eq over the cross product of the interesting set" },
+    OpDef { name: "dfix64_unary", fam: Family::DfixUnary, wout: 9, split: false, fdig: false, eval: d_unary, what: "DFix64 neg, to_f32, sin, cos, from_f32∘to_f32 over the interesting Q32.32 set" },
+    OpDef { name: "dfix64_arith", fam: Family::DfixBin, wout: 9, split: false, fdig: false, eval: d_bin, what: "DFix64 + - * / cmp over the cross product of the interesting Q32.32 set" },
+    OpDef { name: "vec3_ops", fam: Family::Vec3, wout: 19, split: true, fdig: false, eval: c_vec3, what: "Vec3 add sub dot cross scale length length_squared normalize, operator forms, clamp" },
+    OpDef { name: "mat4_ops", fam: Family::Mat4, wout: 22, split: true, fdig: false, eval: c_mat4, what: "Mat4 multiply, transform_point, transform_direction, operator forms" },
+    OpDef { name: "mat4_rotations", fam: Family::Rot, wout: 48, split: false, fdig: true, eval: c_rot, what: "Mat4::rotation_from_euler, rotation_axis_angle, translation·scale (finite inputs)" },
+    OpDef { name: "quat_multiply", fam: Family::Quat, wout: 4, split: false, fdig: true, eval: c_quat_mul, what: "Quat::multiply (finite components)" },
+    OpDef { name: "quat_normalize_to_mat4", fam: Family::Quat, wout: 36, split: false, fdig: true, eval: c_quat_norm, what: "Quat::normalize, to_mat4, Mat4::from_quat (finite components)" },
+    OpDef { name: "quat_from_axis_angle", fam: Family::Quat, wout: 4, split: false, fdig: true, eval: c_quat_axis, what: "Quat::from_axis_angle (finite axis and angle)" },
+    OpDef { name: "prng_streams", fam: Family::Prng, wout: 161, split: false, fdig: false, eval: c_prng, what: "Prng::from_seed/from_seed_u64, 64 next_f32 + 6x16 next_int per seed" },
 ];
 
 pub fn op_by_name(name: &str) -> Option<&'static OpDef> {
@@ -578,7 +581,11 @@ pub fn fam_input(sp: &Spaces, fam: Family, b: u64, i: u64, inp: &mut [u32; MAX_I
     match fam {
         Family::Unary => {
             inp[0] = unary_input(sp, b, i);
-            CL_FINITE
+            if fin(inp[0]) {
+                CL_FINITE
+            } else {
+                CL_NONFINITE
+            }
         }
         Family::BinF32 => {
             let g = b * (1 << 20) + i;
